@@ -654,6 +654,10 @@ class NpyArray:
 
     def __setitem__(self, sl, value):
         """Set data at slice `sl` to `value`."""
+        # The memmap writes through at once: make pending appends visible first so that the
+        # file never shows a state that did not exist
+        if self._header_bytes_to_write:
+            self.flush()
         self.memmap[sl] = value
 
     def __len__(self):
